@@ -7,6 +7,7 @@ import (
 	"github.com/ohler55/ojg/internal/vref"
 	"github.com/ohler55/ojg/internal/vx"
 	"github.com/ohler55/ojg/oj"
+	"github.com/ohler55/ojg/pretty"
 	"github.com/ohler55/ojg/sen"
 )
 
@@ -311,10 +312,11 @@ func (failingWriter) Write(p []byte) (int, error) { return 0, errWriteFailed }
 var errWriteFailed = errors.New("write failed")
 
 func VerifC07_Writers() {
-	api := vx.Choose("api", 8)
+	api := vx.Choose("api", 10)
 	s1, s2 := vx.Choose("shape1", numWShapes), vx.Choose("shape2", 3)
 	vx.Key("api", []string{"oj.Writer.JSON", "sen.Writer.SEN", "oj.JSON(pooled)", "oj.Marshal(pooled)", "sen.String(pooled)",
-		"oj.Writer.Write(failing writer) then JSON", "sen.Writer.Write(failing writer) then SEN", "oj.Write(pooled, failing writer) then oj.JSON"}[api])
+		"oj.Writer.Write(failing writer) then JSON", "sen.Writer.Write(failing writer) then SEN", "oj.Write(pooled, failing writer) then oj.JSON",
+		"oj.Marshal(v, caller's Writer) then Writer.JSON", "pretty.Writer.Write then Marshal"}[api])
 	vx.Key("shape1", s1)
 	vx.Key("shape2", s2)
 	if api == 7 && (s1 > 3 || s2 != 0) {
@@ -370,6 +372,22 @@ func VerifC07_Writers() {
 			fw := &sen.Writer{Options: *o}
 			fw.WriteLimit = 8
 			fresh = fw.SEN(v2)
+		case 8:
+			// Marshal with the caller's Writer, then the same Writer on a value with a nil slice
+			w := &oj.Writer{Options: *o}
+			firstBytes, _ = oj.Marshal(v1, w)
+			firstCopy = append([]byte{}, firstBytes...)
+			nv := []any{[]any(nil), v2}
+			second = w.JSON(nv)
+			fresh = (&oj.Writer{Options: *o}).JSON(nv)
+		case 9:
+			// a streamed pretty write, then an in-memory one on the same Writer
+			w := &pretty.Writer{Width: 20, MaxDepth: 2}
+			_ = w.Write(&recorder{}, v1)
+			b2, _ := w.Marshal(v2)
+			second = string(b2)
+			fb, _ := (&pretty.Writer{Width: 20, MaxDepth: 2}).Marshal(v2)
+			fresh = string(fb)
 		case 7:
 			// through the pool, default WriteLimit (1024): the second document is longer
 			big := []any{v2, string(make([]byte, 1500))}
@@ -388,7 +406,7 @@ func VerifC07_Writers() {
 	}
 	vx.Observe("second", second)
 	vx.Assert("second-write-equals-fresh", len(second) == len(fresh) && vx.StrEq(second, fresh))
-	if api == 3 {
+	if api == 3 || api == 8 {
 		vx.Assert("marshal-result-not-altered", len(firstBytes) == len(firstCopy) && vx.BytesEq(firstBytes, firstCopy))
 	}
 	_ = first
